@@ -74,6 +74,10 @@ fn col_flags(r: &CellRef) -> u16 {
 
 /// rgce bytes. `wide_rows`: BIFF12 (u32 rows, 16-bit string lengths); `value_class`: use the value-class
 /// (0x40) token ids for operands instead of the reference class (0x20).
+thread_local! { static NAME_BASE: std::cell::Cell<u32> = const { std::cell::Cell::new(0) }; }
+/// Run `f` with PtgName indices shifted by `base` (the workbook has `base` name records before the model's names).
+pub fn with_name_base<R>(base: u32, f: impl FnOnce() -> R) -> R { NAME_BASE.with(|b| b.set(base)); let r = f(); NAME_BASE.with(|b| b.set(0)); r }
+
 pub fn to_ptg(e: &Expr, biff12: bool, value_class: bool, out: &mut Vec<u8>) {
     let cls = if value_class { 0x40 } else { 0x20 };
     let row = |r: u32, out: &mut Vec<u8>| { if biff12 { out.extend(r.to_le_bytes()) } else { out.extend((r as u16).to_le_bytes()) } };
@@ -82,7 +86,7 @@ pub fn to_ptg(e: &Expr, biff12: bool, value_class: bool, out: &mut Vec<u8>) {
         Expr::Area(a, b) => { out.push(0x05 | cls); row(a.row, out); row(b.row, out); out.extend(col_flags(a).to_le_bytes()); out.extend(col_flags(b).to_le_bytes()); }
         Expr::Ref3d(x, r) => { out.push(0x1A | cls); out.extend((*x as u16).to_le_bytes()); row(r.row, out); out.extend(col_flags(r).to_le_bytes()); }
         Expr::Area3d(x, a, b) => { out.push(0x1B | cls); out.extend((*x as u16).to_le_bytes()); row(a.row, out); row(b.row, out); out.extend(col_flags(a).to_le_bytes()); out.extend(col_flags(b).to_le_bytes()); }
-        Expr::Name(i) => { out.push(0x03 | cls); out.extend((*i as u32 + 1).to_le_bytes()); if !biff12 { /* BIFF8 PtgName: 4-byte index only */ } }
+        Expr::Name(i) => { out.push(0x03 | cls); out.extend((*i as u32 + 1 + NAME_BASE.with(|b| b.get())).to_le_bytes()); if !biff12 { /* BIFF8 PtgName: 4-byte index only */ } }
         Expr::Int(i) => { out.push(0x1E); out.extend(i.to_le_bytes()); }
         Expr::Num(f) => { out.push(0x1F); out.extend(f.to_le_bytes()); }
         Expr::Str(s) => {
